@@ -87,7 +87,7 @@ package objects
 
 // a removed application is no longer reported as allocating by the leaf or any ancestor
 //@ func (sq *Queue) RemoveApplication(app *Application)
-//@   props C11 C03
+//@   props C11 C03 C08
 //@   sweep
 //@   mode nopanic=off
 //@   at[pending] call objects.Queue.decPendingResource#1: assert arg0 == sq && (forall t Key :: rv(arg1, t) == rv(app.pending, t))
@@ -97,6 +97,11 @@ package objects
 //@   ensures[bothshares] old(app.ApplicationID in sq.applications) && old((exists t Key :: rv(app.allocatedResource, t) != 0) && (exists u Key :: rv(app.allocatedPlaceholder, u) != 0)) ==> ncalls(objects.Queue.DecAllocatedResource) == 2
 //@   ensures[anyshare] old(app.ApplicationID in sq.applications) && old((exists t Key :: rv(app.allocatedResource, t) != 0) || (exists u Key :: rv(app.allocatedPlaceholder, u) != 0)) ==> ncalls(objects.Queue.DecAllocatedResource) >= 1
 //@   ensures[pendingshare] old(app.ApplicationID in sq.applications) && old(exists t Key :: rv(app.pending, t) != 0) ==> ncalls(objects.Queue.decPendingResource) == 1
+//@   loop 1: exhaustive
+//@   loop 1: each alloc.preempted ==> ncalls(resources.Resource.AddTo) == iter(ncalls(resources.Resource.AddTo)) + 1
+//@   at[counted:C08] call resources.Resource.AddTo#1: assert arg0 == preempting && alloc.preempted && (forall t Key :: rv(arg1, t) == rv(alloc.allocatedResource, t))
+//@   at[returned:C08] call objects.Queue.DecPreemptingResource#1: assert arg0 == sq && arg1 == preempting
+//@   ensures[walked:C08] old(app.ApplicationID in sq.applications) ==> ndone(1) == 1
 
 // same gate on the reserved path: stated from the property (room on every ancestor), implied by canRunApp's contract
 //@ func (sq *Queue) TryReservedAllocate(iterator func() NodeIterator) (res *AllocationResult)
@@ -765,6 +770,9 @@ package objects
 //@   ensures[absent] removed == nil ==> sa.allocatedResource == old(sa.allocatedResource) && sa.allocatedPlaceholder == old(sa.allocatedPlaceholder)
 //@   at[complete:C10] call objects.Application.HandleApplicationEvent#1: assert arg1 != CompleteApplication || appZero(sa) || (appState(sa) == "Completing" && alloc.placeholder)
 //@   at[userph] call objects.Application.decUserResourceUsage#1: assert alloc.placeholder && arg1 == alloc.allocatedResource && arg0 == sa
+//@   ensures[lastphfailing:C06,C10] removed != nil && removed.placeholder && (forall t Key :: rv(sa.allocatedPlaceholder, t) == 0) && old(appState(sa)) == "Failing" ==> ncalls(objects.Application.HandleApplicationEvent) == 1
+//@   ensures[lastphresuming:C06,C10] removed != nil && removed.placeholder && (forall t Key :: rv(sa.allocatedPlaceholder, t) == 0) && old(appState(sa)) == "Resuming" ==> ncalls(objects.Application.HandleApplicationEvent) == 1
+//@   at[timeoutoutcome:C06,C10] call objects.Application.HandleApplicationEvent#1: assert (alloc.placeholder && appState(sa) == "Failing" ==> arg1 == FailApplication) && (alloc.placeholder && appState(sa) == "Resuming" ==> arg1 == RunApplication)
 //@   at[userreal] call objects.Application.decUserResourceUsage#2: assert !alloc.placeholder && arg1 == alloc.allocatedResource && arg0 == sa
 
 //@ func (sa *Application) trackCompletedResource(info *Allocation)
@@ -775,11 +783,13 @@ package objects
 // a resize of an ask/allocation moves exactly one ledger by the difference: pending for an outstanding ask, the total
 // the allocation is booked into (placeholder or real) for a bound one, and the queue chain / user by the same delta
 //@ func (sa *Application) UpdateAllocationResources(alloc *Allocation, isQuotaPreemptionEnabled bool) (err error)
-//@   props C03 C05 C06
+//@   props C03 C05 C06 C01 C10
 //@   mode nopanic=off
-//@   ensures[boundreal:C03,C06] err == nil && old(sa.requests[alloc.allocationKey]) != nil && old(sa.requests[alloc.allocationKey].allocated) && !old(sa.requests[alloc.allocationKey].placeholder) ==> (forall t Key :: rv(sa.allocatedResource, t) == clamp64(old(rv(sa.allocatedResource, t)) + clamp64(rv(alloc.allocatedResource, t) - old(rv(sa.requests[alloc.allocationKey].allocatedResource, t)))))
-//@   ensures[boundph:C03,C06] err == nil && old(sa.requests[alloc.allocationKey]) != nil && old(sa.requests[alloc.allocationKey].allocated) && old(sa.requests[alloc.allocationKey].placeholder) ==> (forall t Key :: rv(sa.allocatedPlaceholder, t) == clamp64(old(rv(sa.allocatedPlaceholder, t)) + clamp64(rv(alloc.allocatedResource, t) - old(rv(sa.requests[alloc.allocationKey].allocatedResource, t))))) && (forall t Key :: rv(sa.allocatedResource, t) == old(rv(sa.allocatedResource, t)))
+//@   ensures[boundreal:C03,C06,C10] err == nil && old(sa.requests[alloc.allocationKey]) != nil && old(sa.requests[alloc.allocationKey].allocated) && !old(sa.requests[alloc.allocationKey].placeholder) ==> (forall t Key :: rv(sa.allocatedResource, t) == clamp64(old(rv(sa.allocatedResource, t)) + clamp64(rv(alloc.allocatedResource, t) - old(rv(sa.requests[alloc.allocationKey].allocatedResource, t)))))
+//@   ensures[boundph:C03,C06,C10] err == nil && old(sa.requests[alloc.allocationKey]) != nil && old(sa.requests[alloc.allocationKey].allocated) && old(sa.requests[alloc.allocationKey].placeholder) ==> (forall t Key :: rv(sa.allocatedPlaceholder, t) == clamp64(old(rv(sa.allocatedPlaceholder, t)) + clamp64(rv(alloc.allocatedResource, t) - old(rv(sa.requests[alloc.allocationKey].allocatedResource, t))))) && (forall t Key :: rv(sa.allocatedResource, t) == old(rv(sa.allocatedResource, t)))
 //@   ensures[outstanding:C03] err == nil && old(sa.requests[alloc.allocationKey]) != nil && !old(sa.requests[alloc.allocationKey].allocated) ==> (forall t Key :: rv(sa.pending, t) == clamp64(old(rv(sa.pending, t)) + clamp64(rv(alloc.allocatedResource, t) - old(rv(sa.requests[alloc.allocationKey].allocatedResource, t)))))
+//@   ensures[stored:C01,C03] err == nil && alloc != nil && old(sa.requests[alloc.allocationKey]) != nil ==> (forall t Key :: rv(old(sa.requests[alloc.allocationKey]).allocatedResource, t) == old(rv(alloc.allocatedResource, t)))
+//@   at[storedonexisting:C01,C03] call objects.Allocation.SetAllocatedResource#1: assert arg0 == existing && arg1 == newResource
 //@   ensures[refused:C03] err != nil ==> sa.pending == old(sa.pending) && sa.allocatedResource == old(sa.allocatedResource) && sa.allocatedPlaceholder == old(sa.allocatedPlaceholder)
 //@   at[usercharged:C05,C03] call objects.Application.incUserResourceUsage#1: assert arg0 == sa && arg1 == delta
 //@   at[queuecharged:C03] call objects.Queue.IncAllocatedResource#1: assert arg0 == sa.queue && arg1 == delta
@@ -792,6 +802,9 @@ package objects
 //@   sweep
 //@   mode nopanic=off
 //@   ensures[zero] (forall t Key :: rv(sa.allocatedResource, t) == 0 && rv(sa.allocatedPlaceholder, t) == 0) && (forall k string :: !(k in sa.allocations))
+//@   loop 1: exhaustive
+//@   loop 1: each len(allocationsToRelease) == iter(len(allocationsToRelease)) + 1 && allocationsToRelease[len(allocationsToRelease) - 1] == alloc
+//@   at[handedback] append allocationsToRelease#1: assert elem == alloc
 //@   at[complete:C10] call objects.Application.HandleApplicationEvent#1: assert arg1 == CompleteApplication && (forall t Key :: rv(sa.pending, t) == 0) && (forall t Key :: rv(sa.allocatedResource, t) == 0)
 //@   at[credited] call resources.NewResource#1: assert usercredited(sa) || usernottracked(sa) || ((forall t Key :: rv(sa.allocatedResource, t) == 0) && (forall t Key :: rv(sa.allocatedPlaceholder, t) == 0))
 //@   at[credit] call objects.Application.decUserResourceUsage#1 after: assume usercredited(sa)
@@ -932,7 +945,7 @@ package objects
 // completion is only requested when nothing is outstanding: no pending ask, no real allocation (and, when asks are
 // removed, no placeholder allocation and not already completing or failing)
 //@ func (sa *Application) removeAsksInternal(allocKey string, detail si.EventRecord_ChangeDetail) (n int)
-//@   props C10 C03 C09
+//@   props C10 C03 C09 C04
 //@   sweep
 //@   mode nopanic=off
 //@   at[nothingleft] call objects.Application.HandleApplicationEvent#1: assert arg1 == CompleteApplication && appZero(sa) && appState(sa) != "Completing" && appState(sa) != "Failing"
@@ -945,6 +958,7 @@ package objects
 //@   at[queuepending:C03] call objects.Queue.decPendingResource#1: assert arg0 == sa.queue && (allocKey == "" ==> arg1 == old(sa.pending)) && (allocKey != "" ==> ((old(sa.requests[allocKey]) != nil && !old(sa.requests[allocKey].allocated)) ? arg1 == old(sa.requests[allocKey].allocatedResource) : arg1 == nil))
 //@   at[apppending:C03] call objects.Queue.decPendingResource#1: assert (allocKey == "" ==> (forall t Key :: rv(sa.pending, t) == 0)) && (allocKey != "" && arg1 != nil ==> (forall t Key :: rv(sa.pending, t) == clamp64(old(rv(sa.pending, t)) - rv(arg1, t)))) && (allocKey != "" && arg1 == nil ==> sa.pending == old(sa.pending))
 //@   ensures[completes] old(len(sa.requests)) != 0 && appZero(sa) && old(appState(sa)) != "Completing" && old(appState(sa)) != "Failing" && noPlaceholders(sa) ==> ncalls(objects.Application.HandleApplicationEvent) == 1
+//@   at[allwithdrawn:C04,C03] call objects.Queue.UpdateApplicationPriority#1: assert allocKey == "" && len(sa.requests) == 0 && len(sa.sortedRequests) == 0
 
 // the converse direction of the completion rule needs to know what "no placeholder allocations" means
 //@ spec noPlaceholders(a *Application) bool = forall k string :: (k in a.allocations) ==> !a.allocations[k].placeholder
@@ -1579,3 +1593,15 @@ package objects
 //@   loop 1: invariant ncalls(objects.Queue.tryAcquirePreemption) == 1
 //@   loop 1: each ncalls(objects.Queue.TryQuotaPreemption) == iter(ncalls(objects.Queue.TryQuotaPreemption)) + 1
 //@   ensures[asked] ncalls(objects.Queue.tryAcquirePreemption) == 1
+
+// a dynamic queue is linked under its parent - which hands it the parent's child template (properties, preemption
+// policy and delay, priority settings) - BEFORE its textual properties are converted into the typed fields the
+// scheduler and the preemptor read; a queue that could not be linked is not handed out
+//@ func newDynamicQueueInternal(name string, leaf bool, parent *Queue, appQueueMapping *AppQueueMapping) (q *Queue, err error)
+//@   props C07 C17
+//@   sweep
+//@   mode nopanic=off
+//@   at[linked] call objects.Queue.addChildQueue#1: assert arg0 == parent && arg1 == sq && sq.parent == parent && sq.isLeaf == leaf && !sq.isManaged
+//@   at[typedaftertemplate] call objects.Queue.UpdateQueueProperties#1: assert arg0 == sq && ncalls(objects.Queue.addChildQueue) == 1
+//@   ensures[converted] err == nil ==> q != nil && ncalls(objects.Queue.UpdateQueueProperties) == 1 && ncalls(objects.Queue.addChildQueue) == 1
+//@   ensures[refused] err != nil ==> q == nil
